@@ -145,6 +145,21 @@ func c14Unit(c *core.Ctx, e *cat.Strat, cfg []float64, withCols bool) {
 			rows := fixedRows(n + variant)[variant:]
 			snaps := cat.Snapshots(rows)
 			cs := map[string]any{"strategy": e.Name, "config": cfg, "bars_OHLCV": rows}
+			// the time axis is whatever dates the snapshots carry: consecutive days, a bar delivered twice by the feed
+			// (two consecutive snapshots with the same date, here the last two and the first two), a gap (weekend)
+			switch variant {
+			case 1:
+				if n >= 2 {
+					snaps[n-1].Date = snaps[n-2].Date
+					snaps[1].Date = snaps[0].Date
+					cs["dates"] = "the first two and the last two snapshots carry the same date"
+				}
+			case 2:
+				for i := n / 2; i < n; i++ {
+					snaps[i].Date = snaps[i].Date.AddDate(0, 0, 2)
+				}
+				cs["dates"] = "two-day gap in the middle"
+			}
 			// reference material from the real Compute
 			base := RunStrategy(e.New(cfg), snaps, 0, mc.Options{})
 			c.Executions++
@@ -347,8 +362,8 @@ func c14Unit(c *core.Ctx, e *cat.Strat, cfg []float64, withCols bool) {
 
 func init() {
 	core.Register(&core.Check{
-		ID:   "C14",
-		Rule: "for every strategy (40 base strategies x configuration box, decorators and compounds over them) x snapshot counts {w+1..w+4, 2w+2} x 3 bar series: (1) Report() is built on the real code, the date axis and every column's value channel are pulled out by reflection and each is drained by an independent reader under the controlled scheduler: every column must supply exactly one value per date and all pipelines must finish; Close, annotation (normalised action) and Outcome columns are compared with the real Compute/closing/outcome of each date, catalogued indicator columns with the documented reference at each date; (2) the report is rendered through the real template (text/template's channel range bridged into the scheduler) and every data.addRow line is parsed and compared, a receive from an exhausted column or a column left with unconsumed values is a violation; states = reports built, non-trivial = reports whose column counts were all correct",
+		ID:     "C14",
+		Rule:   "for every strategy (40 base strategies x configuration box, decorators and compounds over them) x snapshot counts {w+1..w+4, 2w+2} x 3 bar series: (1) Report() is built on the real code, the date axis and every column's value channel are pulled out by reflection and each is drained by an independent reader under the controlled scheduler: every column must supply exactly one value per date and all pipelines must finish; Close, annotation (normalised action) and Outcome columns are compared with the real Compute/closing/outcome of each date, catalogued indicator columns with the documented reference at each date; (2) the report is rendered through the real template (text/template's channel range bridged into the scheduler) and every data.addRow line is parsed and compared, a receive from an exhausted column or a column left with unconsumed values is a violation; states = reports built, non-trivial = reports whose column counts were all correct",
 		Assume: []string{"bar series are fixed irregular series of the four bars with positive range and volume", "indicator columns are compared only where the catalogue restates them (Cols) and the documented value is defined"},
 		Units: func(tier string) []core.Unit {
 			var us []core.Unit
